@@ -1,3 +1,8 @@
+// util.go — helpers shared by the generators: Gallina string rendering, literal readers, and the
+// generator-facing side of the symbolic evaluator of eval.go (package loading, package-level tables,
+// walking the values found in a trace). The evaluator itself — values, scopes, expressions, statements,
+// inlining, the unordered-context discipline — is in eval.go; docs/notes/ROBUSTNESS.md says what it
+// resolves and what it refuses.
 package main
 
 import (
@@ -103,4 +108,135 @@ func stringMap(e ast.Expr) ([][2]string, error) {
 		out = append(out, [2]string{k, v})
 	}
 	return out, nil
+}
+
+// ---------------------------------------------------------------------------------------------
+// generator-facing helpers over the evaluator (eval.go)
+
+// declFile: the file (path below the repository root) that declares the package-level name.
+func (p *pkgInfo) declFile(name string) string {
+	if d := p.values[name]; d != nil {
+		return p.fileName[d.file]
+	}
+	return p.rel
+}
+
+// stringTable evaluates the package-level name to a map[string]string, in insertion order
+// (callers sort: Go's iteration order over a map is unspecified).
+func (ev *evaluator) stringTable(name string) ([][2]string, error) {
+	v, err := ev.pkgValue(name, nil)
+	if err != nil {
+		return nil, err
+	}
+	mv, ok := v.(*mapVal)
+	if !ok {
+		return nil, fmt.Errorf("%s: %s is not resolvable to a map of strings (it is %s)", ev.pkg.declFile(name), name, describe(v))
+	}
+	var out [][2]string
+	for i := range mv.keys {
+		k, ok1 := mv.keys[i].(strVal)
+		val, ok2 := mv.vals[i].(strVal)
+		if !ok1 || !ok2 {
+			return nil, fmt.Errorf("%s: %s: entry %s: %s is not a pair of resolvable strings", ev.pkg.declFile(name), name,
+				describe(mv.keys[i]), describe(mv.vals[i]))
+		}
+		out = append(out, [2]string{string(k), string(val)})
+	}
+	return out, nil
+}
+
+// stringList evaluates the package-level name to a []string whose order is determined by the source.
+func (ev *evaluator) stringList(name string) ([]string, error) {
+	v, err := ev.pkgValue(name, nil)
+	if err != nil {
+		return nil, err
+	}
+	sv, ok := v.(*sliceVal)
+	if !ok {
+		return nil, fmt.Errorf("%s: %s is not resolvable to a slice of strings (it is %s)", ev.pkg.declFile(name), name, describe(v))
+	}
+	l, err := ev.orderedStrings(sv, nil)
+	if err != nil {
+		return nil, fmt.Errorf("%s: %s: %v", ev.pkg.declFile(name), name, err)
+	}
+	return l, nil
+}
+
+// stringValue evaluates the package-level name to a string.
+func (ev *evaluator) stringValue(name string) (string, error) {
+	v, err := ev.pkgValue(name, nil)
+	if err != nil {
+		return "", err
+	}
+	s, ok := v.(strVal)
+	if !ok {
+		return "", fmt.Errorf("%s: %s is not resolvable to a string (it is %s)", ev.pkg.declFile(name), name, describe(v))
+	}
+	return string(s), nil
+}
+
+// reachableCalls collects every opaque call that is part of the value v.
+func reachableCalls(v value, set map[*callVal]bool, seen map[value]bool) {
+	switch x := v.(type) {
+	case *callVal:
+		if set[x] {
+			return
+		}
+		set[x] = true
+		reachableCalls(x.fun, set, seen)
+		for _, a := range x.args {
+			reachableCalls(a, set, seen)
+		}
+	case *selVal:
+		reachableCalls(x.x, set, seen)
+	case *funcVal:
+		if x.recv != nil {
+			reachableCalls(x.recv, set, seen)
+		}
+	case *ptrVal:
+		reachableCalls(x.elem, set, seen)
+	case tupleVal:
+		for _, e := range x {
+			reachableCalls(e, set, seen)
+		}
+	case *sliceVal:
+		if !seen[x] {
+			seen[x] = true
+			for _, e := range x.elems {
+				reachableCalls(e, set, seen)
+			}
+		}
+	case *mapVal:
+		if !seen[x] {
+			seen[x] = true
+			for _, e := range x.vals {
+				reachableCalls(e, set, seen)
+			}
+		}
+	case *structVal:
+		if !seen[x] {
+			seen[x] = true
+			for _, e := range x.fields {
+				reachableCalls(e, set, seen)
+			}
+		}
+	}
+}
+
+// stripHandlerConv removes the conversions between http.HandlerFunc and http.Handler that do not
+// change which function handles the request: http.HandlerFunc(f) and http.HandlerFunc(f).ServeHTTP are f.
+func stripHandlerConv(v value) value {
+	for {
+		if cv, ok := v.(*callVal); ok && isPkgFunc(cv.fun, "net/http", "HandlerFunc") && len(cv.args) == 1 && !cv.ellipsis {
+			v = cv.args[0]
+			continue
+		}
+		if sv, ok := v.(*selVal); ok && sv.sel == "ServeHTTP" {
+			if cv, ok := sv.x.(*callVal); ok && isPkgFunc(cv.fun, "net/http", "HandlerFunc") && len(cv.args) == 1 && !cv.ellipsis {
+				v = cv.args[0]
+				continue
+			}
+		}
+		return v
+	}
 }
